@@ -416,7 +416,7 @@ void sim_step(void)
     /* the CPU watchdog measures processor time spent *without* a simulated call: a loop that keeps calling the environment is
        the step budget's business (LIVELOCK), and a legitimately long operation (a 255-deep include chain re-read through
        %preproc makes a few million calls) must not trip a limit meant for loops that call nothing */
-    if ((R.steps & 8191) == 0 && R.in_run) arm_watchdog(20);
+    if ((R.steps & 8191) == 0 && R.in_run) arm_watchdog(10);
     if (++R.op_steps > R.step_budget && R.in_run) sim_fail("LIVELOCK", "more than %llu simulated calls in one operation", (unsigned long long)R.step_budget);
 }
 
@@ -427,7 +427,7 @@ void sim_alloc_step(void)
 {
     if (!R.in_run) return;
     if (R.cur_op_index != R.alloc_op_mark) { R.alloc_op_mark = R.cur_op_index; R.op_alloc_steps = 0; }
-    if ((++R.alloc_steps & 65535) == 0) arm_watchdog(20);
+    if ((++R.alloc_steps & 65535) == 0) arm_watchdog(10);
     if (++R.op_alloc_steps > 60000000ULL) sim_fail("LIVELOCK", "more than 60 million allocator calls in one operation");
 }
 
@@ -518,7 +518,7 @@ static void run_plan(const engine_t *e, plan_t *p)
     R.steps = R.op_steps = 0; R.alloc_steps = R.op_alloc_steps = 0; R.alloc_op_mark = -2;
     R.step_budget = (uint64_t)plan_get(p, "budget", 20000);
     R.clock_us = 0;
-    arm_watchdog(20);
+    arm_watchdog(10);
     lib_state_restore();
     world_reset(p);
     R.in_run = 1;
